@@ -187,6 +187,7 @@ package bits
 //@   notypeinv
 //@   requires size >= 0 && size <= 1<<48
 //@   ensures swInv(result) && fresh(result) && fresh(result.buf) && len(result.buf) == size && result.off == 0 && result.accError == nil && result.n == 0 && result.v == 0
+//@   defines[C03] ghost(result).tr == trEmpty()
 //@   assigns nothing
 
 //@ func NewFixedSliceWriterFromSlice
@@ -222,6 +223,7 @@ package bits
 //@   notypeinv
 //@   requires swInv(sw)
 //@   ensures result == sw.buf[0:sw.off]
+//@   defines[C03] sw.accError == nil ==> chBytes(result) == trFlat(ghost(sw).tr)
 //@   assigns nothing
 
 //@ func (*FixedSliceWriter).WriteUint8
@@ -230,7 +232,8 @@ package bits
 //@   ensures swInv(sw) && sw.buf == old(sw.buf)
 //@   ensures swStep(old(sw.off)+1 <= len(sw.buf), sw.accError, old(sw.accError), sw.off, old(sw.off), 1)
 //@   ensures old(sw.off)+1 <= len(sw.buf) ==> sw.buf[old(sw.off)] == n
-//@   assigns sw.off, sw.accError, sw.buf[sw.off:sw.off+1]
+//@   defines[C03] sw.accError == nil ==> ghost(sw).tr == trApp(old(ghost(sw).tr), chU(8, uint64(n)))
+//@   assigns sw.off, sw.accError, sw.buf[sw.off:sw.off+1], ghost(sw).tr
 
 //@ func (*FixedSliceWriter).WriteUint16
 //@   notypeinv
@@ -238,7 +241,8 @@ package bits
 //@   ensures swInv(sw) && sw.buf == old(sw.buf)
 //@   ensures swStep(old(sw.off)+2 <= len(sw.buf), sw.accError, old(sw.accError), sw.off, old(sw.off), 2)
 //@   ensures old(sw.off)+2 <= len(sw.buf) ==> be16(sw.buf, old(sw.off)) == n
-//@   assigns sw.off, sw.accError, sw.buf[sw.off:sw.off+2]
+//@   defines[C03] sw.accError == nil ==> ghost(sw).tr == trApp(old(ghost(sw).tr), chU(16, uint64(n)))
+//@   assigns sw.off, sw.accError, sw.buf[sw.off:sw.off+2], ghost(sw).tr
 
 //@ func (*FixedSliceWriter).WriteInt16
 //@   notypeinv
@@ -246,7 +250,8 @@ package bits
 //@   ensures swInv(sw) && sw.buf == old(sw.buf)
 //@   ensures swStep(old(sw.off)+2 <= len(sw.buf), sw.accError, old(sw.accError), sw.off, old(sw.off), 2)
 //@   ensures old(sw.off)+2 <= len(sw.buf) ==> be16(sw.buf, old(sw.off)) == uint16(n)
-//@   assigns sw.off, sw.accError, sw.buf[sw.off:sw.off+2]
+//@   defines[C03] sw.accError == nil ==> ghost(sw).tr == trApp(old(ghost(sw).tr), chU(16, uint64(uint16(n))))
+//@   assigns sw.off, sw.accError, sw.buf[sw.off:sw.off+2], ghost(sw).tr
 
 //@ func (*FixedSliceWriter).WriteUint24
 //@   notypeinv
@@ -254,7 +259,8 @@ package bits
 //@   ensures swInv(sw) && sw.buf == old(sw.buf)
 //@   ensures swStep(old(sw.off)+3 <= len(sw.buf), sw.accError, old(sw.accError), sw.off, old(sw.off), 3)
 //@   ensures old(sw.off)+3 <= len(sw.buf) ==> be24(sw.buf, old(sw.off)) == n & 0xffffff
-//@   assigns sw.off, sw.accError, sw.buf[sw.off:sw.off+3]
+//@   defines[C03] sw.accError == nil ==> ghost(sw).tr == trApp(old(ghost(sw).tr), chU(24, uint64(n & 0xffffff)))
+//@   assigns sw.off, sw.accError, sw.buf[sw.off:sw.off+3], ghost(sw).tr
 
 //@ func (*FixedSliceWriter).WriteUint32
 //@   notypeinv
@@ -262,7 +268,8 @@ package bits
 //@   ensures swInv(sw) && sw.buf == old(sw.buf)
 //@   ensures swStep(old(sw.off)+4 <= len(sw.buf), sw.accError, old(sw.accError), sw.off, old(sw.off), 4)
 //@   ensures old(sw.off)+4 <= len(sw.buf) ==> be32(sw.buf, old(sw.off)) == n
-//@   assigns sw.off, sw.accError, sw.buf[sw.off:sw.off+4]
+//@   defines[C03] sw.accError == nil ==> ghost(sw).tr == trApp(old(ghost(sw).tr), chU(32, uint64(n)))
+//@   assigns sw.off, sw.accError, sw.buf[sw.off:sw.off+4], ghost(sw).tr
 
 //@ func (*FixedSliceWriter).WriteInt32
 //@   notypeinv
@@ -270,7 +277,8 @@ package bits
 //@   ensures swInv(sw) && sw.buf == old(sw.buf)
 //@   ensures swStep(old(sw.off)+4 <= len(sw.buf), sw.accError, old(sw.accError), sw.off, old(sw.off), 4)
 //@   ensures old(sw.off)+4 <= len(sw.buf) ==> be32(sw.buf, old(sw.off)) == uint32(n)
-//@   assigns sw.off, sw.accError, sw.buf[sw.off:sw.off+4]
+//@   defines[C03] sw.accError == nil ==> ghost(sw).tr == trApp(old(ghost(sw).tr), chU(32, uint64(uint32(n))))
+//@   assigns sw.off, sw.accError, sw.buf[sw.off:sw.off+4], ghost(sw).tr
 
 //@ func (*FixedSliceWriter).WriteUint64
 //@   notypeinv
@@ -278,7 +286,8 @@ package bits
 //@   ensures swInv(sw) && sw.buf == old(sw.buf)
 //@   ensures swStep(old(sw.off)+8 <= len(sw.buf), sw.accError, old(sw.accError), sw.off, old(sw.off), 8)
 //@   ensures old(sw.off)+8 <= len(sw.buf) ==> be64(sw.buf, old(sw.off)) == n
-//@   assigns sw.off, sw.accError, sw.buf[sw.off:sw.off+8]
+//@   defines[C03] sw.accError == nil ==> ghost(sw).tr == trApp(old(ghost(sw).tr), chU(64, n))
+//@   assigns sw.off, sw.accError, sw.buf[sw.off:sw.off+8], ghost(sw).tr
 
 //@ func (*FixedSliceWriter).WriteInt64
 //@   notypeinv
@@ -286,7 +295,8 @@ package bits
 //@   ensures swInv(sw) && sw.buf == old(sw.buf)
 //@   ensures swStep(old(sw.off)+8 <= len(sw.buf), sw.accError, old(sw.accError), sw.off, old(sw.off), 8)
 //@   ensures old(sw.off)+8 <= len(sw.buf) ==> be64(sw.buf, old(sw.off)) == uint64(n)
-//@   assigns sw.off, sw.accError, sw.buf[sw.off:sw.off+8]
+//@   defines[C03] sw.accError == nil ==> ghost(sw).tr == trApp(old(ghost(sw).tr), chU(64, uint64(n)))
+//@   assigns sw.off, sw.accError, sw.buf[sw.off:sw.off+8], ghost(sw).tr
 
 //@ func (*FixedSliceWriter).WriteUint48
 //@   notypeinv
@@ -294,7 +304,8 @@ package bits
 //@   ensures swInv(sw) && sw.buf == old(sw.buf)
 //@   ensures swStep(old(sw.off)+6 <= len(sw.buf), sw.accError, old(sw.accError), sw.off, old(sw.off), 6)
 //@   ensures old(sw.off)+6 <= len(sw.buf) ==> be16(sw.buf, old(sw.off)) == uint16(u>>32) && be32(sw.buf, old(sw.off)+2) == uint32(u)
-//@   assigns sw.off, sw.accError, sw.buf[sw.off:sw.off+6]
+//@   defines[C03] sw.accError == nil ==> ghost(sw).tr == trApp(old(ghost(sw).tr), chU(48, u & 0xffffffffffff))
+//@   assigns sw.off, sw.accError, sw.buf[sw.off:sw.off+6], ghost(sw).tr
 
 //@ func (*FixedSliceWriter).WriteString
 //@   notypeinv
@@ -303,7 +314,8 @@ package bits
 //@   ensures swStep(old(sw.off)+len(s)+ite(addZeroEnd, 1, 0) <= len(sw.buf), sw.accError, old(sw.accError), sw.off, old(sw.off), len(s)+ite(addZeroEnd, 1, 0))
 //@   ensures old(sw.off)+len(s)+ite(addZeroEnd, 1, 0) <= len(sw.buf) ==> forall j int :: 0 <= j && j < len(s) ==> sw.buf[old(sw.off)+j] == old(s[j])
 //@   ensures old(sw.off)+len(s)+ite(addZeroEnd, 1, 0) <= len(sw.buf) && addZeroEnd ==> sw.buf[old(sw.off)+len(s)] == 0
-//@   assigns sw.off, sw.accError, sw.buf[sw.off:sw.off+len(s)+1]
+//@   defines[C03] sw.accError == nil ==> ghost(sw).tr == ite(addZeroEnd, trApp(trApp(old(ghost(sw).tr), chBytes(s)), chU(8, uint64(0))), trApp(old(ghost(sw).tr), chBytes(s)))
+//@   assigns sw.off, sw.accError, sw.buf[sw.off:sw.off+len(s)+1], ghost(sw).tr
 
 //@ func (*FixedSliceWriter).WriteBytes
 //@   notypeinv
@@ -311,7 +323,8 @@ package bits
 //@   ensures swInv(sw) && sw.buf == old(sw.buf)
 //@   ensures swStep(old(sw.off)+len(byteSlice) <= len(sw.buf), sw.accError, old(sw.accError), sw.off, old(sw.off), len(byteSlice))
 //@   ensures old(sw.off)+len(byteSlice) <= len(sw.buf) ==> forall j int :: 0 <= j && j < len(byteSlice) ==> sw.buf[old(sw.off)+j] == old(byteSlice[j])
-//@   assigns sw.off, sw.accError, sw.buf[sw.off:sw.off+len(byteSlice)]
+//@   defines[C03] sw.accError == nil ==> ghost(sw).tr == trApp(old(ghost(sw).tr), chBytes(byteSlice))
+//@   assigns sw.off, sw.accError, sw.buf[sw.off:sw.off+len(byteSlice)], ghost(sw).tr
 
 //@ func (*FixedSliceWriter).WriteZeroBytes
 //@   notypeinv
@@ -319,7 +332,8 @@ package bits
 //@   ensures swInv(sw) && sw.buf == old(sw.buf)
 //@   ensures swStep(old(sw.off)+n <= len(sw.buf), sw.accError, old(sw.accError), sw.off, old(sw.off), n)
 //@   ensures old(sw.off)+n <= len(sw.buf) ==> forall j int :: 0 <= j && j < n ==> sw.buf[old(sw.off)+j] == 0
-//@   assigns sw.off, sw.accError, sw.buf[sw.off:sw.off+n]
+//@   defines[C03] sw.accError == nil ==> ghost(sw).tr == trApp(old(ghost(sw).tr), chU(0, uint64(n)))
+//@   assigns sw.off, sw.accError, sw.buf[sw.off:sw.off+n], ghost(sw).tr
 //@   loop 1 invariant 0 <= i && i <= n && sw.off == old(sw.off)+i && sw.buf == old(sw.buf) && sw.accError == old(sw.accError) && old(sw.off)+n <= len(sw.buf)
 //@   loop 1 invariant forall j int :: 0 <= j && j < i ==> sw.buf[old(sw.off)+j] == 0
 //@   loop 1 invariant forall k int :: (k < old(sw.off) || k >= old(sw.off)+n) ==> sw.buf[k] == old(sw.buf[k])
@@ -329,7 +343,8 @@ package bits
 //@   requires swInv(sw)
 //@   ensures swInv(sw) && sw.buf == old(sw.buf)
 //@   ensures swStep(old(sw.off)+36 <= len(sw.buf), sw.accError, old(sw.accError), sw.off, old(sw.off), 36)
-//@   assigns sw.off, sw.accError, sw.buf[sw.off:sw.off+36]
+//@   defines[C03] sw.accError == nil ==> ghost(sw).tr == trApp(old(ghost(sw).tr), chU(1, uint64(0)))
+//@   assigns sw.off, sw.accError, sw.buf[sw.off:sw.off+36], ghost(sw).tr
 
 // ---------------------------------------------------------------- bit writer / reader (C13)
 // Ghost state of the abstract io.Writer / io.Reader is maintained by the trusted models of Write / binary.Read:
